@@ -19,7 +19,8 @@
 /* _mpz_realloc: exact old size handed to the allocator (proved in its own unit against the allocator stubs), new block of
    exactly max(new_alloc,1) limbs, limbs preserved below min(old,new) (at ghost gk), value cleared to 0 if it no longer fits */
 void *__gmpz_realloc (mpz_ptr m, mp_size_t new_alloc)
-__CPROVER_requires (V_WFA (m) && -(long) V_ALLOC (m) <= (long) V_SIZ (m) && (long) V_SIZ (m) <= (long) V_ALLOC (m))
+/* SIZ may transiently exceed ALLOC at the call (mpq_inv stores the new size first): only its magnitude must be sane */
+__CPROVER_requires (V_WFA (m) && -V_ZMAX <= (long) V_SIZ (m) && (long) V_SIZ (m) <= V_ZMAX)
 __CPROVER_requires (new_alloc <= V_ZMAX && 0 <= gk && gk <= V_NMAX && 0 <= gj && gj <= V_NMAX && 0 <= gh && gh <= V_NMAX)
 __CPROVER_assigns (*m)
 __CPROVER_frees (V_PTR (m))
@@ -42,4 +43,30 @@ __CPROVER_ensures (V_WF_AT (w, gk))
 V_MPZ3 (__gmpz_add);
 V_MPZ3 (__gmpz_sub);
 
+#define V_MPZ2(f) void f (mpz_ptr w, mpz_srcptr u) \
+__CPROVER_requires (V_WF (w) && V_WF (u) && 0 <= gk && gk <= V_NMAX && 0 <= gj && gj <= V_NMAX && 0 <= gh && gh <= V_NMAX) \
+__CPROVER_assigns (*w, __CPROVER_object_whole (V_PTR (w))) \
+__CPROVER_frees (V_PTR (w)) \
+__CPROVER_ensures (V_WF_AT (w, gk))
+V_MPZ2 (__gmpz_neg);
+V_MPZ2 (__gmpz_abs);
+V_MPZ2 (__gmpz_set);
+
+/* swap: the three fields are exchanged, nothing is allocated, copied or freed */
+void __gmpz_swap (mpz_ptr u, mpz_ptr v)
+__CPROVER_requires (V_WF (u) && V_WF (v))
+__CPROVER_assigns (*u, *v)
+__CPROVER_ensures (V_SIZ (u) == __CPROVER_old (V_SIZ (v)) && V_SIZ (v) == __CPROVER_old (V_SIZ (u)))
+__CPROVER_ensures (V_ALLOC (u) == __CPROVER_old (V_ALLOC (v)) && V_ALLOC (v) == __CPROVER_old (V_ALLOC (u)))
+__CPROVER_ensures (V_PTR (u) == __CPROVER_old (V_PTR (v)) && V_PTR (v) == __CPROVER_old (V_PTR (u)))
+__CPROVER_ensures (V_WF (u) && V_WF (v))
+;
+
+void __gmpz_mul_2exp (mpz_ptr w, mpz_srcptr u, mp_bitcnt_t cnt)
+__CPROVER_requires (V_WF (w) && V_WF (u) && 0 <= gk && gk <= V_NMAX && 0 <= gj && gj <= V_NMAX && 0 <= gh && gh <= V_NMAX)
+__CPROVER_requires (V_ABSIZ (u) + (long) (cnt / 64) + 1 <= V_ZMAX)
+__CPROVER_assigns (*w, __CPROVER_object_whole (V_PTR (w)), gk)
+__CPROVER_frees (V_PTR (w))
+__CPROVER_ensures (V_WF_AT (w, gk) && gk == __CPROVER_old (gk))
+;
 #endif
